@@ -61,6 +61,13 @@ check(
     "DESIGN.md section 5, C03",
 )
 check(
+    "C04", "bc",
+    "Seeded search over sequences of add_dirichlet (constants, nodal arrays, functions of position; overlapping node sets, duplicated dofs, any order), add_neumann / add_lineLoad / add_surfLoad / add_volumeLoad, generic multi-point Lagrange conditions, beam connections (fixed / hinged) on 2D and 3D frames, Bc_Init, back-end switches (direct, cg, bicg, gmres, lgmres) and Solve, for Elastic (2D/3D), Thermal, Beam (Euler-Bernoulli and Timoshenko), HyperElastic (Newton-incremental) and meshes with orphan nodes. After every Solve: constrained dofs hold the sum of their entries, multi-point constraints are satisfied, the solution equals a dense KKT reference solve of the very K and F the simulation assembled (kappa-scaled; 10*kappa*rtol for iterative back ends), the residual is orthogonal to the constraint null space, nothing is NaN. Injected back-end failures: the failed Solve leaves the solution untouched and the retry passes all of the above.",
+    "Trusted: the dense reference (simkit.engines.bc._reference), NumPy, K and F as assembled (C01-C03, C09). Duplicated Dirichlet dofs are generated only without Lagrange conditions (the sum convention is documented for the elimination solver). Distributed loads are generated only on node sets that bound loaded elements. The bounded least-squares back end only accepts bounded problems and is exercised by the phase-field engine. Newton non-convergence with duplicated dofs is flagged only if the same problem with merged entries converges.",
+    "deterministic simulation: seeded constraint-call/back-end/fault sequences vs dense KKT reference model, ddmin-minimised replay files",
+    "DESIGN.md section 5, C04",
+)
+check(
     "C05", "dyn",
     "Seeded search over time-stepping histories (Elastic with Rayleigh damping: newmark, hht, hht_newmark, midpoint, backward and forward Euler; Thermal and linear WeakForms: parabolic theta-scheme and hyperbolic schemes): arbitrary prior states, parameters drawn from the accepted ranges, step size over four decades, load/constraint changes, scheme or step-size switches between steps, Save_Iter/Set_Iter rollback, injected back-end failure + retry, virtual clock jumps. After every step: documented update relations (well-conditioned forms), K u_t + C v_t + M a_t = F on free dofs, constraints, equality with one generic dense reference integrator built from the documented scheme definitions (backward-error based tolerances), weights = derivatives of the evaluation-point states, and discrete energy (conserved by Newmark(1/4,1/2) and midpoint, non-increasing for backward Euler) in free undamped motion.",
     "Trusted: the reference integrator (simkit.engines.dyn.ref_states/ref_step, transcribed from the AlgoType and Solver_Set_Parabolic_Algorithm docstrings), dense NumPy algebra, K/C/M/F as returned by Get_K_C_M_F (their correctness is C01-C03). Parabolic alpha is drawn from (0.05, 1]; alpha = 0 is documented but divides by zero and is not generated. HyperElastic's use of the weights is exercised under C18.",
